@@ -85,9 +85,12 @@ Verdict(e) ==
     [] e.k = "doc" -> [verdict |-> "VIOLATION", why |-> "a document of the model was rejected", detail |-> e.error]
     [] OTHER -> [verdict |-> "VIOLATION", why |-> "tool: unknown event kind"]
 
+\* (constant level: the recorded document and alphabet are substituted for CONSTANTS of XPathSession)
+Verdicts == [i \in 1..Len(Rec) |-> Verdict(Rec[i])]
+
 Init == l = 1
 Next == /\ l <= Len(Rec)
-        /\ LET v == Verdict(Rec[l])
+        /\ LET v == Verdicts[l]
            IN  IF v.verdict = "ok" THEN TRUE ELSE PrintT(<<"VERDICT", ToJson([i |-> l] @@ v)>>)
         /\ l' = l + 1
 Spec == Init /\ [][Next]_l
